@@ -58,8 +58,34 @@ static FWire c01(Reader& r,FReader& f) {
     return out;
 }
 
+// closed-form pieces: c01p <id> <ndip> <npts> <nmeg> | dipoles points squids  ->  DipSource2MEGMat (nmeg x ndip) then
+// DipSource2InternalPotMat at the points (npts x ndip; all points must lie in the dipoles' domain)
+static FWire c01p(Reader& r,FReader& f) {
+    const ll id = r.z();
+    const size_t ndip = r.n(), npts = r.n(), nmeg = r.n();
+    Matrix dipoles(ndip,6);
+    for (size_t i=0;i<ndip;++i) for (unsigned k=0;k<6;++k) dipoles(i,k) = f.x();
+    Matrix pts(npts,3);
+    for (size_t i=0;i<npts;++i) for (unsigned k=0;k<3;++k) pts(i,k) = f.x();
+    Matrix mpos(nmeg,3), mori(nmeg,3);
+    for (size_t i=0;i<nmeg;++i) { for (unsigned k=0;k<3;++k) mpos(i,k) = f.x(); for (unsigned k=0;k<3;++k) mori(i,k) = f.x(); }
+    if (!r.done() || !f.done()) throw Reader::Malformed();
+    const std::string stem = "m"+std::to_string(id);
+    const Geometry geo(stem+".geom",stem+".cond");
+    Strings mnames;
+    for (size_t i=0;i<nmeg;++i)  mnames.push_back("M"+std::to_string(i));
+    Vector mw(nmeg), mr(nmeg); mw.set(1.0); mr.set(0.0);
+    const Sensors squids(mnames,mpos,mori,mw,mr);
+    const Matrix ds2mm = DipSource2MEGMat(dipoles,squids);
+    const Matrix ds2ip = DipSource2InternalPotMat(geo,dipoles,pts,"");
+    FWire out; out.z = Wire{ST_OK,(ll)ds2ip.nlin(),(ll)ndip,(ll)nmeg};
+    for (size_t i=0;i<nmeg;++i) for (size_t j=0;j<ndip;++j) out.f.push_back(ds2mm(i,j));
+    for (size_t i=0;i<ds2ip.nlin();++i) for (size_t j=0;j<ndip;++j) out.f.push_back(ds2ip(i,j));
+    return out;
+}
+
 int main(int argc,char** argv) {
     if (argc<2) return 2;
     struct rlimit rl; rl.rlim_cur=rl.rlim_max=(rlim_t)12<<30; setrlimit(RLIMIT_AS,&rl);
-    return run_cases_f(argv[1],[&](const std::string& comp,Reader& r,FReader& f)->FWire { if (comp=="c01") return c01(r,f); return FWire{Wire{-2},{}}; });
+    return run_cases_f(argv[1],[&](const std::string& comp,Reader& r,FReader& f)->FWire { if (comp=="c01") return c01(r,f); if (comp=="c01p") return c01p(r,f); return FWire{Wire{-2},{}}; });
 }
